@@ -185,6 +185,7 @@ package memfs
 //@   requires[C08] parent != nil && wheld(parent.mu)
 //@   ensures[C03] fresh(r0) && r0.mode == vfs.dirMode | (perm & avfs.FileModeMask &^ vfs.umask) && r0.uid == vfs.user.Uid() && r0.gid == vfs.user.Gid()
 //@   ensures[C05] dom(parent.children, name) && parent.children[name] is *dirNode && parent.children[name].(*dirNode) == r0
+//@   modifies parent.children, parent.children[*]
 
 //@ func (*MemFS).createFile
 //@   event
@@ -199,6 +200,7 @@ package memfs
 //@   requires[C08] parent != nil && wheld(parent.mu)
 //@   ensures[C03] fresh(r0) && r0.mode == fs.ModeSymlink | fs.ModePerm && r0.uid == vfs.user.Uid() && r0.gid == vfs.user.Gid()
 //@   ensures[C04,C05] r0.link == link && dom(parent.children, name) && parent.children[name] is *symlinkNode && parent.children[name].(*symlinkNode) == r0
+//@   modifies parent.children, parent.children[*]
 
 // ---- memfs_internal.go: the path walk (C01, C03, C04, C05, C07, C11) ---------------------------
 
@@ -227,6 +229,7 @@ package memfs
 //@   ensures[C01,C05,C07] err == vfs.err.FileExists ==> parent != nil && child != nil
 //@   ensures[C01,C05,C07] child != nil ==> parent != nil
 //@   ensures[C01,C05,C07] child == nil ==> err == vfs.err.NoSuchDir || err == vfs.err.NoSuchFile
+//@   ensures[C01,C07] (err == vfs.err.NoSuchDir || err == vfs.err.NoSuchFile) && vfs.err.NoSuchDir != vfs.err.NotADirectory && vfs.err.NoSuchFile != vfs.err.NotADirectory && vfs.err.NoSuchDir != vfs.err.PermDenied && vfs.err.NoSuchFile != vfs.err.PermDenied && vfs.err.NoSuchDir != vfs.err.TooManySymlinks && vfs.err.NoSuchFile != vfs.err.TooManySymlinks ==> child == nil
 //@   ensures[C01,C05,C07] child == nil && parent != nil ==> piOnPart(pi)
 //@   ensures[C01,C05,C07] parent == nil || piOnPart(pi) || (child is *dirNode && child.(*dirNode) == parent && pi.start == pi.end)
 //@   ensures[C01,C05] child == nil && parent != nil ==> (err == vfs.err.NoSuchFile <==> pi.end == len(pi.path)) || vfs.err.NoSuchFile == vfs.err.NoSuchDir
@@ -243,6 +246,7 @@ package memfs
 //@   requires[C08] wheld(dn.mu) && child != nil
 //@   modifies dn.children, dn.children[*]
 //@   ensures[C05] dom(dn.children, name) && dn.children[name] == child
+//@   ensures[C05] (old(dn.children) == nil ==> fresh(dn.children)) && (old(dn.children) != nil ==> dn.children == old(dn.children))
 //@   ensures[C05] forall n string :: n != name ==> dom(dn.children, n) == old(dom(dn.children, n)) && dn.children[n] == old(dn.children[n])
 
 //@ func (*dirNode).removeChild
